@@ -464,7 +464,7 @@ func (w *World) read(contract string, method string, goArgs []any) (ok bool, v V
 // events of the last transaction emitted by the named contract under the given name.
 func (w *World) events(contract, name string) []Value {
 	var out []Value
-	if w.lastAer == nil {
+	if !w.lastHalted() {
 		return nil
 	}
 	h := w.target(contract)
@@ -476,8 +476,15 @@ func (w *World) events(contract, name string) []Value {
 	return out
 }
 
+// lastHalted: notifications are what an observer of the chain receives. neo-go keeps the notifications of a
+// FAULTed execution in its application log, but its dispatcher delivers them to subscribers only for HALT
+// (core/blockchain.go, notificationDispatcher): a faulted transaction has no observable notification.
+func (w *World) lastHalted() bool {
+	return w.lastAer != nil && w.lastAer.VMState == vmstate.Halt
+}
+
 func (w *World) eventCount() int {
-	if w.lastAer == nil {
+	if !w.lastHalted() {
 		return 0
 	}
 	return len(w.lastAer.Events)
@@ -564,7 +571,7 @@ func (w *World) uniq(ss ...neotest.Signer) []neotest.Signer {
 // eventNames: "contract.Event" for every notification of the last transaction, in order.
 func (w *World) eventNames() []string {
 	var out []string
-	if w.lastAer == nil {
+	if !w.lastHalted() {
 		return nil
 	}
 	for _, ev := range w.lastAer.Events {
